@@ -424,6 +424,23 @@ func init() {
 				{ID: 2, Cons: []eConj{{{F: 1, Inc: true, V: tvSlice("[]int", tvInt("int", 2))}}, {{F: 0, Inc: true, V: tvSlice("[]int", tvInt("int", 3))}, {F: 2, Inc: false, V: tvStr("x")}}}},
 			}, Queries: []eQuery{{A: []eAssign{{F: 1, V: tvInt("int", 2)}}}, {A: []eAssign{{F: 0, V: tvInt("int", 3)}, {F: 2, V: tvStr("x")}}}, {A: []eAssign{{F: 0, V: tvInt("int", 3)}, {F: 2, V: tvStr("y")}}},
 				{A: []eAssign{{F: 0, V: tvInt("int", 1)}, {F: 1, V: tvInt("int", 2)}}}, {}}})
+			if kind == "kgroups" {
+				lateConfigCases(add)
+			}
+			// an ABANDONED generation: the first thing a fresh (or just reset) builder is handed is a document whose LATER
+			// conjunction is refused (its earlier ones are committed by then); the caller gives the feed up, Resets without
+			// building and starts over -- nothing of the refused document may be in the index that is finally built
+			for _, pol := range []string{"error", "panic"} {
+				iv := func(f int, n int64) eExpr { return eExpr{F: f, Inc: true, V: tvSlice("[]int", tvInt("int", n))} }
+				for _, pre := range [][]eDoc{
+					{{ID: 7, Cons: []eConj{{iv(0, 1)}, {{F: 0, Inc: true, V: tvBool(true)}}}}},
+					{{ID: 7, Cons: []eConj{{{F: 1, Inc: false, V: tvStr("x")}}, {iv(0, 1), iv(1, 2)}, {{F: 1, Inc: true, V: tvNil()}}}}, {ID: 8, Cons: []eConj{{{F: 0, Inc: true, V: TV{T: "other:map"}}}}}},
+				} {
+					add(eCase{Kind: kind, Policy: pol, Pre: pre, PreNoBuild: true, Docs: []eDoc{
+						{ID: 1, Cons: []eConj{{iv(0, 1)}}}, {ID: 2, Cons: []eConj{{iv(0, 2), {F: 1, Inc: false, V: tvStr("y")}}}},
+					}, Queries: []eQuery{{A: []eAssign{{F: 0, V: tvInt("int", 1)}}}, {}, {A: []eAssign{{F: 0, V: tvInt("int", 1)}, {F: 1, V: tvInt("int", 2)}}}, {A: []eAssign{{F: 0, V: tvInt("int", 2)}, {F: 1, V: tvStr("z")}}}}})
+				}
+			}
 			for i := 0; i < n; i++ {
 				o.nFields = 1 + r.Intn(5)
 				if i%10 == 9 { // wide: many fields, so that a retrieval sorts and scans 9 and more field cursors
@@ -526,6 +543,7 @@ func init() {
 			if tier == "thorough" {
 				n = 3000
 			}
+			lateConfigCases(add)
 			for i := 0; i < n; i++ {
 				kind := "kgroups"
 				if i%2 == 1 {
